@@ -47,7 +47,8 @@ def question(name, qtype=1, qid=0):
 
 
 QUESTIONS = [(["alias", "lan"], 1), (["www", "lan"], 1), (["extra", "other"], 1), (["t1", "other"], 1), (["alias", "lan"], 255),
-             (["gone1", "lan"], 16), (["gone2", "lan"], 16), (["b", "other"], 1)]
+             (["gone1", "lan"], 16), (["gone2", "lan"], 16), (["b", "other"], 1), (["extra", "other"], 255), (["t9", "other"], 255),
+             (["b", "other"], 255), (["t9", "other"], 1)]
 
 
 class Disk:
@@ -55,7 +56,12 @@ class Disk:
 
     def __init__(self, base):
         self.base = base
-        os.makedirs(os.path.join(base, "dir"), exist_ok=True)
+        # the zone directory is reached through a symbolic link (current -> dir.v<n>), as deployments that publish a
+        # new configuration by re-pointing a link do
+        self.dirv = 1
+        os.makedirs(os.path.join(base, "dir.v1"), exist_ok=True)
+        if not os.path.lexists(os.path.join(base, "dir")):
+            os.symlink("dir.v1", os.path.join(base, "dir"))
         self.va, self.vb, self.vc = 1, 1, 0          # vc = 0: no c file
         self.bad = None
         self.ids = {}
@@ -102,8 +108,8 @@ class Disk:
                     os.remove(p)
             self.write_all()
             return "repair " + kind
-        kinds = ["change_a", "change_b", "add_c", "corrupt_a", "change_c", "dangling", "remove_c", "corrupt_b", "delete_a",
-                 "garbage_c", "change_a", "change_b"]
+        kinds = ["change_a", "change_b", "add_c", "corrupt_a", "change_c", "repoint", "dangling", "remove_c", "corrupt_b",
+                 "delete_a", "garbage_c", "change_a", "repoint", "change_b"]
         self.nedits = getattr(self, "nedits", 0) + 1
         # every kind of edit occurs in every schedule; beyond that the choice is random
         k = kinds[self.nedits - 1] if self.nedits <= len(kinds) and r.random() < 0.8 else r.choice(kinds)
@@ -115,6 +121,24 @@ class Disk:
             self.vc = self.vc % 3 + 1
         elif k == "remove_c":
             self.vc = 0
+        elif k == "repoint":
+            # a new directory with the next version of its files, published by atomically re-pointing the link
+            import shutil
+            self.vb = self.vb % 5 + 1
+            self.dirv += 1
+            new = os.path.join(self.base, "dir.v%d" % self.dirv)
+            os.makedirs(new, exist_ok=True)
+            with open(os.path.join(new, "b.zone"), "w") as fh:
+                fh.write(c12.render_zone(rc.zone([], recs_b(self.vb), auth=False)))
+            if self.vc:
+                with open(os.path.join(new, "c.zone"), "w") as fh:
+                    fh.write(c12.render_zone(rc.zone([], recs_c(self.vc), auth=False)))
+            tmp = os.path.join(self.base, ".tmp-link")
+            if os.path.lexists(tmp):
+                os.remove(tmp)
+            os.symlink("dir.v%d" % self.dirv, tmp)
+            os.replace(tmp, os.path.join(self.base, "dir"))
+            return k
         elif k == "corrupt_a":
             self.bad = (k, "a")
             self.put("a", c12.render_zone(zone_a(self.va % 8 + 1)) + "www.lan. 300 IN A not-an-address\n")
@@ -140,11 +164,22 @@ class Disk:
         return k
 
 
-def run_schedule(v, wd, r, nreloads, with_fifo):
+def run_schedule(v, wd, r, nreloads, with_fifo, mode="auth"):
     base = os.path.join(wd, "cfg")
+    if os.path.isdir(base):
+        import shutil
+        shutil.rmtree(base)
     os.makedirs(base, exist_ok=True)
     disk = Disk(base)
-    server = sd.Server(wd, ["--authoritative-only", "-z", disk.path("a"), "-Z", os.path.join(base, "dir")])
+    upstream = None
+    if mode == "auth":
+        server = sd.Server(wd, ["--authoritative-only", "-z", disk.path("a"), "-Z", os.path.join(base, "dir")])
+    else:
+        # a forwarding resolver whose forwarder answers SERVFAIL to everything: whatever the configuration does not
+        # answer by itself fails, so every reply is still a function of the configuration in force
+        upstream = sd.MockUpstream({}, behaviour="table")
+        server = sd.Server(wd, ["--forward-address", "127.0.0.1:%d" % upstream.port, "-z", disk.path("a"),
+                                "-Z", os.path.join(base, "dir")])
     events = []
     lock = threading.Lock()
     seq = [0]
@@ -233,13 +268,15 @@ def run_schedule(v, wd, r, nreloads, with_fifo):
         alive = server.alive()
         log = server.log_text()
         server.stop()
+        if upstream is not None:
+            upstream.stop()
     if not alive:
         v.violation("the server died during the reload schedule", {"log_tail": log[-3000:]})
     events.sort(key=lambda e: e["seq"])
     # drop queries whose recv is missing (cut off at the end)
     got = {e["qid"] for e in events if e["ev"] == "recv"}
     events = [e for e in events if e["ev"] not in ("send",) or e["qid"] in got]
-    return {"ev": "configs", "initial": initial, "configs": disk.configs}, events
+    return {"ev": "configs", "mode": mode, "initial": initial, "configs": disk.configs}, events
 
 
 def run(tier):
@@ -249,10 +286,13 @@ def run(tier):
               "<=MaxEdits edits, <=MaxSignals signals): each reply reflects one configuration current during the "
               "request, a failed load changes nothing, every request is eventually answered; TV: the real binary with "
               "a zone file and a zone directory: seeded schedules of edits (change / add / remove a file, corrupt a "
-              "file, delete the explicit file, dangling entry in the directory, a named pipe that makes the reload slow) "
+              "file, delete the explicit file, dangling entry in the directory, the directory - reached through a "
+              "symbolic link - replaced by re-pointing the link, a named pipe that makes the reload slow) "
               "each followed by SIGUSR1, while two client threads query continuously; alias answers cross both files, so "
               "a mixed configuration would show in a single reply.  TLC validates the trace with the set of "
-              "configurations possibly in force. An evaluation is one query answered or one reload.")
+              "configurations possibly in force. The same in forwarding mode with a forwarder that answers SERVFAIL to "
+              "everything (replies are then still a function of the configuration), with ANY questions for names the "
+              "hosts-style files override. An evaluation is one query answered or one reload.")
     v.assumptions = ["A3: files are replaced atomically (rename) and not edited while a reload is loading",
                      "the success / failure of a reload is read from the server's log"]
     wd = workdir("c19")
@@ -267,8 +307,9 @@ def run(tier):
     v.exhaustive = True
     nsched, nreloads = (2, 22) if tier == "quick" else (12, 45)
     total_q = total_r = 0
-    for sidx in range(nsched):
-        head, events = run_schedule(v, os.path.join(wd, "s%d" % sidx), r_, nreloads, with_fifo=(sidx == 0))
+    plan = [("auth", nreloads, i == 0) for i in range(nsched)] + [("fwd-dead", 16 if tier == "quick" else 40, False)] * (1 if tier == "quick" else 4)
+    for sidx, (mode, nrel, fifo) in enumerate(plan):
+        head, events = run_schedule(v, os.path.join(wd, "s%d" % sidx), r_, nrel, with_fifo=fifo, mode=mode)
         path = os.path.join(wd, "reload-%d.trace.ndjson" % sidx)
         write_ndjson(path, [head] + events)
         rr = tlc("ReloadTrace", "ReloadTrace.cfg", workers=1, env={"TRACE": path}, dfs=True, timeout=3400, xmx="14g")
